@@ -1,6 +1,7 @@
 package main
 
 import (
+	"go/token"
 	"fmt"
 	"sort"
 	"strings"
@@ -93,6 +94,8 @@ func init() {
 				}
 				R.decide("C08.d", "reach:count", "the verification call tree was explored (>= 40 functions)", len(fns) >= 40, fmt.Sprintf("%d functions, %d panics", len(fns), n), "")
 			}},
+		Rule{ID: "C08.f", Explain: "arithmetic that can fail: in the functions reachable from the verification entry points the result of (*big.Int).ModInverse / ModSqrt - nil when no inverse or root exists, which a prover can arrange (A = 0 makes the known part of Z non-invertible) - is used only after a nil test of that very result on every path; a call whose result is discarded and whose receiver is read afterwards is a finding of the group-element rules (C11.k, C12.m), not of this one.",
+			Run: func(P *Program, R *Report) { nilArithmeticRule(P, R, "C08.f") }},
 		Rule{ID: "C08.e", Explain: "ProofList.UnmarshalJSON yields only non-nil *ProofD / *ProofU elements or an error (discriminated on A then U).",
 			Run: func(P *Program, R *Report) {
 				fn := mustFunc(P, R, "C08.e", "gabi.(*ProofList).UnmarshalJSON")
@@ -345,4 +348,54 @@ func lookupNamesRule(P *Program, R *Report) {
 			}})
 		}
 	}
+}
+
+// nilArithmeticRule: see C08.f.
+func nilArithmeticRule(P *Program, R *Report, rule string) {
+	fns := P.reachableFuncs(c08Entries(P)...)
+	n := 0
+	for _, fn := range fns {
+		if fn.Blocks == nil || isBigWrapperFn(fn) {
+			continue
+		}
+		for _, ci := range callsIn(fn) {
+			c, ok := ci.(*ssa.Call)
+			if !ok {
+				continue
+			}
+			m := bigMethod(c)
+			if m != "ModInverse" && m != "ModSqrt" {
+				continue
+			}
+			var uses []ssa.Instruction
+			for _, r := range referrersOf(c) {
+				switch u := r.(type) {
+				case *ssa.DebugRef:
+				case *ssa.BinOp:
+					if (u.Op == token.EQL || u.Op == token.NEQ) && (isNilConst(u.X) || isNilConst(u.Y)) {
+						continue // the nil test itself
+					}
+					uses = append(uses, u)
+				default:
+					uses = append(uses, r)
+				}
+			}
+			if len(uses) == 0 {
+				continue // result discarded (in-place form)
+			}
+			n++
+			ok = true
+			var why []string
+			for _, u := range uses {
+				q := &MustPass{P: P, NoInterproc: true, Match: func(a Atom) bool { return a.V == ssa.Value(c) && a.Want == NonNil }}
+				if r := q.MustReach(fn, u); !r.Holds {
+					ok = false
+					why = append(why, "used at "+P.Pos(u.Pos())+" without a nil test: "+r.Path)
+				}
+			}
+			R.seen(FuncKey(fn))
+			R.decide(rule, fmt.Sprintf("%s:%s-result#%d", FuncKey(fn), m, n), "the result of "+m+" (nil if there is none) is nil-tested before it is used", ok, strings.Join(why, "\n"), P.Pos(c.Pos()))
+		}
+	}
+	R.decide(rule, "sites:count", "uses of ModInverse/ModSqrt results on the verification paths were found (>= 2)", n >= 2, fmt.Sprintf("%d", n), "")
 }
